@@ -140,3 +140,93 @@ chk('C11', 'exploration',
     'property-based testing (Hypothesis) + exhaustive window enumeration on '
     'a fixed file',
     'DESIGN.md 7 C11')
+chk('C03', 'exploration',
+    'Generated files x non-empty dimension subsets x named reducers, '
+    'length-changing callables (convolutions, diff, sub-sampling, cumsum), '
+    'dictionary and string forms; every variable is compared with the same '
+    'function applied per axis to the numpy/numpy.ma model (masks included), '
+    'untouched variables bit-for-bit, dimension and coordinate lengths with '
+    'the function\'s output length, commuting reducers across keyword orders.',
+    'numpy.ma is the reference for masked reductions; rtol 1e-5 (f4) / 1e-12 '
+    '(f8); integer results compared after the cast numpy applies on '
+    'assignment; any order of single-axis application is accepted where the '
+    'statement fixes none.',
+    'property-based testing (Hypothesis) against a numpy.ma reference model '
+    '+ metamorphic relation (keyword order)',
+    'DESIGN.md 7 C03')
+chk('C04', 'exploration',
+    'Generated files split by the model into 1-4 consecutive pieces along '
+    'any dimension, built as independent library files and stacked: '
+    'concatenation in argument order (masks included), stack(split(f)) == f '
+    'field by field, slice(stack) == piece; also independently generated '
+    'conforming files; thorough adds stack_files / pncmfopen / '
+    'open_mfdataset on saved netCDF pieces.',
+    'Pieces have >= 1 element; the order of the dimension dictionary is not '
+    'judged (C07 judges order); disk entries fall back to the in-memory '
+    'method where netCDF cannot represent the piece.',
+    'property-based testing (Hypothesis): metamorphic split/stack/slice '
+    'relations against numpy concatenation',
+    'DESIGN.md 7 C04')
+chk('C06', 'exploration',
+    'Generated pairs of conforming files x every operator, eval assignments '
+    'from an expression grammar, and every subset of mask() predicates with '
+    'thresholds drawn from the data, compared cell by cell (value and mask) '
+    'with numpy.ma evaluation of the same expression; coordinate variables '
+    'must pass through from the left operand.',
+    'Cases where numpy itself raises are discarded or expected to raise; '
+    'result dtype is not judged; one known finding (0-d eval mask lost via '
+    'numpy MaskedConstant) is listed in known_findings.json.',
+    'property-based testing (Hypothesis) against numpy.ma evaluation',
+    'DESIGN.md 7 C06')
+chk('C08', 'exploration',
+    'Generated CAMx-convention files of every format (uamiv x4 NAMEs, '
+    'lateral_boundary, landuse, wind, temperature, height_pressure, '
+    'humidity, vertical_diffusivity, cloud_rain) with start dates weighted '
+    'to day/year/century/leap roll-overs and arbitrary float32 bit '
+    'patterns: read(write(f)) compared bit for bit (data, species order, '
+    'TFLAG/ETFLAG, grid header) and write(read(write(f))) byte for byte.',
+    'Whole-hour steps, dates 1970-2069; volatile attributes excluded; known '
+    'findings of the wind memmap reader on 1x1 grids listed in '
+    'known_findings.json.',
+    'property-based testing (Hypothesis): write/read round trip + idempotent '
+    'rewrite',
+    'DESIGN.md 7 C08')
+chk('C09', 'exploration',
+    'Both directions against an independent struct-only codec written from '
+    'the format description (vf/ref/fortran.py, vf/ref/camx_ref.py): library '
+    'writer output must tile exactly into Fortran records with agreeing '
+    'markers and decode to exactly the written names/times/values; reference '
+    'encoder output must be read by the library as exactly the encoded '
+    'content.  Catches symmetric writer+reader errors that C08 cannot.',
+    'The reference codec is validated at setup against the nine repository '
+    'samples and 16 literal arrays of the in-module tests; record-reader '
+    'direction exercised for uamiv only (other formats under C13).',
+    'property-based testing (Hypothesis), differential against an '
+    'independent reference codec',
+    'DESIGN.md 7 C09')
+chk('C13', 'exploration',
+    'Reference-encoded files of every format that has both reader families '
+    'are opened by the memory-mapped and the record-based reader: shared '
+    'dimension lengths, float data (after squeezing length-1 axes) and time '
+    'flags must agree; an exception from one reader on a file the other and '
+    'the reference decoder accept is a violation; non-termination is '
+    'detected by deterministic iteration counters, not timeouts.',
+    'Files both readers reject are counted, not judged; several genuine '
+    'defects of the (deprecated) record readers are listed as known findings '
+    'with narrow matchers.',
+    'property-based testing (Hypothesis), differential between two '
+    'implementations with a reference decoder as arbiter',
+    'DESIGN.md 7 C13')
+chk('C14', 'fault_enumeration',
+    'For every generated small file (all CAMx formats) EVERY proper prefix '
+    '(each byte offset) is opened and read completely: the outcome must be '
+    'an exception or complete steps identical to the corresponding steps of '
+    'the full file.  Cut points are exhausted per file (exhaustive: true per '
+    'file); files are sampled; offsets are classified header / marker / '
+    'mid-record / record boundary / step boundary.',
+    'Files <= ~3 KB; two inherent format ambiguities (headerless met files '
+    'cut inside the first step; cloud_rain 3/5 variables) are known '
+    'findings; bpch is plugged in through the same plugin table.',
+    'exhaustive fault enumeration over cut points of Hypothesis-generated '
+    'files, reference codec as oracle',
+    'DESIGN.md 7 C14')
